@@ -62,7 +62,11 @@ REG = {
         "rule": "every width 1..64 x unsigned saturated/truncated and signed: the six points around both ends of the range (corpus, exhaustive); random (type, initialiser) pairs: boundaries of the "
                 "own and neighbouring widths +-2, 2**63/2**64 edges, float16/32/64 +-max finite +-1, +-1/3, +-1e-30, +-max/2**60, non-integers, strings of length 0/1/2 incl. NUL, DEL, U+0080, "
                 "non-ASCII, booleans, sets, ill-formed type parameters (int1, truncated int8, uint65, float17) and types that cannot carry constants (void, arrays, byte, utf8); initialisers spelled as "
-                "literals in any base, 2**k-1 forms, sums, quotients; distinct = distinct (type, initialiser text)",
+                "literals in any base, 2**k-1 forms, sums, quotients; reference family (one case in seven): definitions with 1-3 earlier constants of every kind (a character, a boolean, integers at the "
+                "ends of their ranges, rationals a binary float represents exactly or not, saturated / truncated types, constants that refer to earlier ones) followed by `<type> X = <expression over "
+                "their names>` (bare copy into the same / a wider / a narrower type, arithmetic, comparisons, logic, two names, sets of names) with the target type chosen around the value; the expected "
+                "value is computed from the STORED values of the referenced constants, the earlier constants of the returned model are judged too; one in three is a service whose other section "
+                "declares constants of the same names with other values; distinct = distinct (type, initialiser text)",
         "technique": "Lean 4 theorems over a model of Constant.__init__ and inclusive_value_range; the model is proved equal to Lean definitions that are translated on every run from the working tree "
                      "(py2lean: Constant.__init__, the constructors / inclusive_value_range / class hierarchy of _primitive.py incl. the table of the float limits, Rational.is_integer, the value classes of "
                      "_expression) by bridge theorems + differential correspondence through `<type> X = <expr>` definitions + declarative oracle on Python integers/Fractions",
